@@ -22,10 +22,10 @@ ASSUMPTIONS = [
 ]
 FLOORS = {
     "quick": {"in_season_days": 15000, "crops_seen": 30, "seasons": 150, "s_restrictive": 20,
-              "d_root_at_table": 50, "s_early_senescence": 15, "s_crop_died": 5, "d_off_season": 1000},
+              "d_root_at_table": 50, "s_early_senescence": 15, "s_crop_died": 5, "d_off_season": 1000, "d_hiadj_at_cap": 5},
     "thorough": {"in_season_days": 150000, "crops_seen": 37, "seasons": 1500, "s_restrictive": 200,
                  "d_root_at_table": 500, "s_early_senescence": 150, "s_crop_died": 50,
-                 "d_off_season": 10000},
+                 "d_off_season": 10000, "d_hiadj_at_cap": 50},
 }
 E = 1e-12
 
@@ -45,7 +45,30 @@ def cases(tier, seed):
             kw.update(p_gw=1.0, gw_depths=(0.4, 0.7, 1.0, 1.4, 2.0))
         elif cls == 2:  # drought: early senescence, crop death
             kw.update(dry=True, regimes=["arid", "hot"], methods=(0, 0, 3), p_file=0.1)
+        if cls == 5 and i % 4 == 1:
+            kw.update(planting=f"{int(rng.integers(4, 7)):02d}/{int(rng.integers(1, 29)):02d}", p_file=0.0,
+                      regimes=["arid", "hot"], seasons=(1, 2), off_season=False, p_gw=0.0, hostile=False, crops=["Cotton"])
+        elif cls == 5 and i % 2 == 1:
+            # harvest-index envelope: crops whose index may rise both before and after flowering
+            # (dHI_pre > 0, small a_HI), mild drought on heavy soils from a moist start, several seasons
+            kw.update(crops=[gen.pick(rng, ["Cotton", "CottonGDD", "Sorghum", "SorghumGDD", "Cassava", "Barley", "Wheat"])],
+                      soil_names=["Clay", "ClayLoam", "SiltClay", "SandyClay", "Loam"], p_custom=0.1,
+                      methods=(0, 0, 1, 3), regimes=["warm", "arid", "temperate"], seasons=(2, 4), off_season=False,
+                      iwc_kinds=("FC", "Pct"), hostile=False, p_gw=0.0, harvest_early=0.0)
         sp = gen.config(rng, **kw)
+        if cls == 5 and i % 4 == 1:
+            # deficit irrigation that keeps the root zone between the expansion and the stomatal
+            # thresholds drives the adjusted harvest index to its allowed maximum
+            sp["crop"]["name"] = gen.pick(rng, ["Cotton", "CottonGDD", "Cotton", "Sorghum"])
+            sp["soil"] = {"type": gen.pick(rng, ["Clay", "Clay", "SiltClay", "SandyClay"]), "kw": {}}
+            sp["iwc"] = {"wc_type": "Prop", "method": "Layer", "depth_layer": [1], "value": ["FC"]}
+            sp["irr"] = {"method": 1, "kw": {"SMT": [float(x) for x in gen.pick(rng, [[40, 30, 20, 20], [45, 35, 25, 20], [35, 25, 15, 15]])]},
+                         "schedule": None}
+            sp["weather"].pop("params", None)
+            sp["weather"].pop("episodes", None)
+            sp["weather"].pop("south", None)
+            sp.pop("gw", None)
+            sp.pop("fm", None)
         out.append({"spec": sp})
     return out
 
@@ -124,6 +147,10 @@ def monitor(spec, res, acc):
         dhi0 = max(float(cr["dHI0"]), 0.0)
         if not hi <= hi0 + E:
             acc.add("HI-above-reference", f"step {t}: harvest index {hi!r} > HI0 {hi0}", dict(t=t, HI=float(hi)))
+        if hia >= hi0 * (1 + dhi0 / 100.0) - 1e-9 and dhi0 > 0:
+            cov["d_hiadj_at_cap"] += 1
+        if hia > hi0 + 1e-9:
+            cov["d_hiadj_above_reference"] += 1
         if not hia <= hi0 * (1 + dhi0 / 100.0) + E:
             acc.add("HIadj-above-allowed", f"step {t}: adjusted harvest index {hia!r} > HI0*(1+dHI0/100) = "
                     f"{hi0 * (1 + dhi0 / 100.0)!r}", dict(t=t, HIadj=float(hia), HI0=hi0, dHI0=cr["dHI0"]))
